@@ -4,126 +4,171 @@ from __future__ import annotations
 import ast
 
 from .. import astutil as A
+from .. import sym as S
 from ..core import AnalysisError, Collector
-from ..effects import Summarizer, loops_closed
-from .common import DEF_ATTRS, fnctx, has_guard, is_method_call, is_self_call, test_is_none
+from .common import SCtx, sctx
 from .toposort_rules import check_toposort
 from . import c01
+from .indexfx import (DEPS, TASK, TASKID, TGTS, index_effects, register_effects, unregister_effects)
 
 PROP = "C02"
-FLOORS = {"C02.R1": 4, "C02.R2": 10, "C02.R3": 4, "C02.R4": 6}
+FLOORS = {"C02.R1": 4, "C02.R2": 8, "C02.R3": 4, "C02.R4": 6, "C02.R5": 3}
 META = {
     "explanation": "run_tasks executes its argument once each in the given order; toposort/_dfs is a reverse-post-order DFS with "
                    "a grow-only visited set (termination and at-most-once on cycles); no call on the assignment path falls back to "
-                   "'all tasks'; register records both directions of every ordering edge (effect summary equals the reference "
-                   "derived from the Manager docstring).",
-    "decides": "the scheduling skeleton: loop shape of run_tasks, DFS template, None-default discipline, completeness of ordering edges",
+                   "'all tasks'; register records both directions of every ordering edge (symbolic effect summary equals the "
+                   "reference derived from the Manager docstring) and unregister removes the scheduling edges with the same "
+                   "multiplicity. All comparisons are on symbolic terms after helper inlining.",
+    "decides": "the scheduling skeleton: loop shape of run_tasks, DFS template, None-default discipline, completeness and "
+               "exact removal of ordering edges",
     "not_decided": "counts of actual executions on concrete graphs; the strict reading of 'no task outside the set' given the "
                    "enclosing-container edges of known finding C01.R6",
     "assumptions": ["task.run() bodies are those checked under C01.R5 or user code that does not touch manager indices"],
 }
 
-REFERENCE = {
-    ("tasks", "TASKID", "TASK", "set"): "tasks[taskid] := task",
-    ("rdeps", "∈deps", "∈targets", "+"): "rdeps[dep] gains every target, for every dependency",
-    ("deptasks", "∈deps", "TASKID", "+"): "deptasks[dep] gains the task, for every dependency",
-    ("rtasks", "∈tartasks[∈deps]", "TASKID", "+"): "every task writing one of the new task's dependencies is ordered before it",
-    ("tartasks", "∈targets", "TASKID", "+"): "tartasks[target] gains the task, for every target",
-    ("rtasks", "TASKID", "∈deptasks[∈targets]", "+"): "the new task is ordered before every task reading one of its targets",
-}
+
+def reference_effects():
+    tar = S.sattr("tartasks")
+    dep = S.sattr("deptasks")
+    eD, eT = ("elem", DEPS), ("elem", TGTS)
+    return {
+        ("tasks", TASKID, TASK, "set", frozenset()): "tasks[taskid] := task",
+        ("rdeps", eD, eT, "+", frozenset({DEPS, TGTS})): "rdeps[dep] gains every target, for every dependency",
+        ("deptasks", eD, TASKID, "+", frozenset({DEPS})): "deptasks[dep] gains the task, for every dependency",
+        ("rtasks", ("elem", ("sub", tar, eD)), TASKID, "+", frozenset({DEPS, ("sub", tar, eD)})):
+            "every task writing one of the new task's dependencies is ordered before it",
+        ("tartasks", eT, TASKID, "+", frozenset({TGTS})): "tartasks[target] gains the task, for every target",
+        ("rtasks", TASKID, ("elem", ("sub", dep, eT)), "+", frozenset({TGTS, ("sub", dep, eT)})):
+            "the new task is ordered before every task reading one of its targets",
+    }
 
 
-def register_summary(col):
-    cx = fnctx(col.repo, "Manager", "register")
-    P = A.params(cx.fn)
-    if len(P) != 2:
-        raise AnalysisError("Manager.register: expected (self, task)")
-    return cx, Summarizer(cx.fn, set(DEF_ATTRS), P[1], None)
+def default_only_when_none(col, rule, sx: SCtx, q: str, p):
+    """a rebinding of parameter term p happens only under `p is None`"""
+    for nid in list(sx.cfg.nodes):
+        for d in sx.cx.rd.defs.get(nid, []):
+            if d.name == p[2] and d.kind == "assign":
+                col.add(rule, f"{q}#default-only-when-None", sx.under(nid, ("cmp", "is", p, ("const", "None"))), sx.loc(nid),
+                        f"`{p[2]}` is replaced by its 'everything' default only when it is None (an empty collection means: nothing)",
+                        f"conditions: {[S.show(c) for c in sx.conds(nid)]}")
 
 
 def _run_tasks(col, rule="C02.R1"):
-    cx = fnctx(col.repo, "Manager", "run_tasks")
+    sx = sctx(col.repo, "Manager", "run_tasks", public=True, keep=c01.ANCHORS)
     q = "Manager.run_tasks"
-    P = A.params(cx.fn)
-    tp = P[1]
-    cfg = cx.cfg
-    runs = cx.call_nodes(lambda c: is_method_call(c, "run"))
-    fors = [n for n in cfg.nodes.values() if n.kind == "for"]
-    ok = len(fors) == 1 and len(runs) == 1
-    facts = f"{len(fors)} loops, {len(runs)} .run() call sites"
-    if ok:
-        f = fors[0]
-        lv = A.target_names(f.ast.target)
-        c = cx.calls_at(runs[0], lambda c: is_method_call(c, "run"))[0]
-        ok = A.dotted(f.ast.iter) == tp and [A.dotted(c.func.value)] == lv and not c.args
-        facts = f"for {A.src(f.ast.target)} in {A.src(f.ast.iter)}: ... {A.src(c)}"
-        # run on every iteration: from loop T-branch every path back to the header passes the run node
-        tb = [n.id for n in cfg.nodes.values() if n.kind == "T" and n.of == f.id][0]
-        every = cfg.must_pass(tb, f.id, runs)
-        col.add(rule, f"{q}#run-each-once-in-order", ok and every, cx.loc(f.id),
-                "run_tasks is one loop over its argument, in the given order, calling task.run() exactly once per element",
-                facts + f"; run on every iteration: {every}")
-    else:
-        col.fail(rule, f"{q}#run-each-once-in-order", cx.loc(cx.fn),
-                 "run_tasks is one loop over its argument calling task.run() exactly once per element", facts)
-    bad = [n for n in A.walk(cx.fn) if isinstance(n, (ast.Break, ast.Continue, ast.Try, ast.While))]
-    rets = [n for n in A.walk(cx.fn) if isinstance(n, ast.Return)]
-    col.add(rule, f"{q}#no-skip-no-handler", not bad and not rets, cx.loc(bad[0] if bad else (rets[0] if rets else cx.fn)),
-            "the loop has no break/continue/early return/handler: no scheduled task is skipped and a failure stops the run",
-            f"{[type(b).__name__ for b in bad + rets]}")
-    # nothing reorders / filters the argument
-    reb = [d for nid in cfg.nodes for d in cx.rd.defs.get(nid, []) if d.name == tp and d.kind not in ("param",)]
-    okd = all(d.kind == "assign" and has_guard(cfg, d.nid, "T", lambda t: test_is_none(t, tp)) for d in reb)
-    col.add(rule, f"{q}#argument-used-as-given", okd, cx.loc(reb[0].nid) if reb else cx.loc(cx.fn),
-            "the task list is used as given (replaced by all tasks only when it is None)", str(reb))
-    c01._none_default(col, "C02.R3", cx, tp, q)
-    # no writes to manager state while running
-    from .common import self_attr_stores
-    st = self_attr_stores(cx.fn)
-    col.add(rule, f"{q}#no-manager-state-written", not st, cx.loc(st[0][1]) if st else cx.loc(cx.fn),
-            "run_tasks does not modify the manager (definitions, indices, flags) while tasks run", f"{[a for a, _ in st]}")
+    cfg = sx.cfg
+    tp = sx.P(0)
+    runs = sx.calls_some(S.mcall(S.V("t"), "run"))
+    if not runs:
+        raise AnalysisError(f"{q}: no .run() call -- cannot decide")
+    allowed = (tp, S.mcall(S.sattr("tasks"), "values"))
+    for ev, m in runs:
+        t = m["t"]
+        its = [a[1] for a in S.alts(t) if a[:1] == ("elem",)]
+        src_ok = len(its) == len(S.alts(t)) and all(all(x in allowed for x in S.alts(i)) for i in its)
+        loops = sx.sym.loops(ev.nid)
+        one_loop = len(loops) == 1 and bool(its) and loops[0] == its[0]
+        hdr = [g for g in cfg.guards(ev.nid) if g.kind == "T" and isinstance(g.ast, (ast.For, ast.AsyncFor))]
+        every = complete = False
+        if one_loop and hdr:
+            tb, h = hdr[0].id, hdr[0].of
+            fb = [n.id for n in cfg.nodes.values() if n.kind == "F" and n.of == h]
+            every = cfg.must_pass(tb, h, [ev.nid])                      # each element is run
+            complete = cfg.must_pass(tb, cfg.EXIT, fb)                  # the loop is left only when exhausted
+        col.add(rule, f"{q}#run-each-once-in-order", src_ok and one_loop and every, sx.loc(ev),
+                "run_tasks is one loop over its argument, in the given order, calling task.run() once per element",
+                f"runs {S.show(t)}; loops {[S.show(l) for l in loops]}; on every iteration: {every}")
+        col.add(rule, f"{q}#no-skip", complete, sx.loc(ev),
+                "the loop is left only when the list is exhausted (no break / early return): no scheduled task is skipped", "")
+    tries = [n for n in A.walk(sx.fn) if isinstance(n, ast.Try)]
+    col.add(rule, f"{q}#no-handler", not tries, sx.loc(sx.fn), "a failing task stops the run and reaches the caller (no handler)", "")
+    default_only_when_none(col, "C02.R3", sx, q, tp)
+    fx, unk = index_effects(sx)
+    st = [e for e in sx.of_kind("store") if any(S.is_attr(t, S.SELF) for t in S.alts(e.target))]
+    col.add(rule, f"{q}#no-manager-state-written", not fx and not st and not unk, sx.loc(st[0]) if st else sx.loc(sx.fn),
+            "run_tasks does not modify the manager (definitions, indices, flags) while tasks run",
+            f"{[e.short() for e in fx]} {[S.show(e.target) for e in st]}")
 
 
 def _no_over_trigger(col, rule="C02.R3"):
     repo = col.repo
-    for name in ("find_taskids", "find_tasks"):  # callees they delegate to are followed by c01._check_find_taskids
-        if not repo.has_method("Manager", name):
-            raise AnalysisError(f"Manager.{name} vanished")
-        cx = fnctx(repo, "Manager", name)
-        P = A.params(cx.fn)
-        if len(P) >= 2:
-            before = len(col.obs)
-            c01._none_default(col, rule, cx, P[1], f"Manager.{name}")
-            if len(col.obs) == before:
-                col.ok(rule, f"Manager.{name}#default-only-when-None", cx.loc(cx.fn),
-                       "no default substitution of the start parameter", "")
-    # call sites on the assignment path never omit the argument
-    sv = fnctx(repo, "Manager", "set_value")
-    for nid in sv.call_nodes(lambda c: is_self_call(c) and c.func.attr in ("find_tasks", "find_taskids", "run_tasks")):
-        for c in sv.calls_at(nid, lambda c: is_self_call(c) and c.func.attr in ("find_tasks", "find_taskids", "run_tasks")):
-            has = len(c.args) + len(c.keywords) >= 1 and not (c.args and A.is_none(c.args[0]))
-            col.add(rule, f"Manager.set_value#{c.func.attr}-has-argument", has, sv.loc(nid),
-                    f"on the assignment path {c.func.attr} is never called without a start argument (None means: all tasks)",
-                    A.src(c))
+    for name in ("find_taskids", "find_tasks"):
+        sx = sctx(repo, "Manager", name, public=True, keep=c01.ANCHORS)
+        before = len(col.obs)
+        default_only_when_none(col, rule, sx, f"Manager.{name}", sx.P(0))
+        if len(col.obs) == before:
+            col.ok(rule, f"Manager.{name}#default-only-when-None", sx.loc(sx.fn), "no default substitution of the start parameter", "")
+    sv = c01.set_value_ctx(col)
+    for meth in ("find_tasks", "find_taskids", "run_tasks"):
+        for ev, m in sv.calls_some(("call", ("attr", S.SELF, meth), S.V("a"), S.V("k"))):
+            args = list(m["a"]) + [v for _, v in m["k"]]
+            has = bool(args) and not any(x == ("const", "None") for a in args[:1] for x in S.alts(a))
+            col.add(rule, f"Manager.set_value#{meth}-has-argument", has, sv.loc(ev),
+                    f"on the assignment path {meth} is never called without a start argument (None means: all tasks)", S.show(ev.term))
 
 
 def _edges(col, rule="C02.R4"):
-    cx, s = register_summary(col)
+    sx, fx, unk = register_effects(col)
     q = "Manager.register"
     got = {}
-    for e in s.effects:
-        got.setdefault((e.index, e.key, e.val, e.op), []).append(e)
-    for key, text in REFERENCE.items():
-        es = got.get(key, [])
-        ok = len(es) == 1 and not es[0].guard and loops_closed(es[0])
-        facts = "; ".join(f"{e.short()} loops={e.loops} guard={e.guard or '-'}" for e in es) or \
-            f"not found among: {[e.short() for e in s.effects]}"
-        col.add(rule, f"{q}#{key[0]}[{key[1]}]{'+=' if key[3] == '+' else ':='}{key[2]}", ok,
-                f"{cx.module.rel}:{es[0].line if es else cx.fn.lineno}", f"register records: {text} (unconditionally, once per origin)", facts)
-    extra = [e for e in s.effects if (e.index, e.key, e.val, e.op) not in REFERENCE]
-    col.add(rule, f"{q}#no-other-index-effects", not extra and not s.unknown, cx.loc(cx.fn),
+    for e in fx:
+        got.setdefault(e.sig(), []).append(e)
+    for sig, text in reference_effects().items():
+        es = got.get(sig, [])
+        ok = len(es) == 1 and not es[0].conds
+        facts = "; ".join(f"{e.short()} conds={[S.show(c, False) for c in e.conds]}" for e in es) or \
+            f"not found among: {[e.short() for e in fx]}"
+        key = f"{sig[0]}[{S.show(sig[1], False)}]{'+=' if sig[3] == '+' else ':='}{S.show(sig[2], False)}"
+        col.add(rule, f"{q}#{key}", ok, sx.loc(es[0].nid) if es else sx.loc(sx.fn),
+                f"register records: {text} (unconditionally, once per origin)", facts)
+    extra = [e for e in fx if e.sig() not in reference_effects()]
+    col.add(rule, f"{q}#no-other-index-effects", not extra and not unk, sx.loc(extra[0].nid) if extra else sx.loc(sx.fn),
             "register has no index effect beyond the six that define the indices",
-            f"extra: {[e.short() for e in extra]} unrecognised: {s.unknown}")
+            f"extra: {[e.short() for e in extra]} unrecognised: {unk}")
+
+
+def inverse_effects(col, rule, only_indices=None, q="Manager.unregister"):
+    """every addition of register has exactly one removal in unregister with the same key, value and multiplicity"""
+    rsx, reg, runk = register_effects(col)
+    usx, unr, uunk = unregister_effects(col)
+    used = set()
+    for a in reg:
+        if only_indices and a.index not in only_indices:
+            continue
+        if a.op == "+":
+            match = [r for r in unr if r.op == "-" and (r.index, r.key, r.val) == (a.index, a.key, a.val)]
+            whole = [d for d in unr if d.op == "delkey" and d.index == a.index and d.key == a.key and a.key == TASKID]
+        else:
+            match = []
+            whole = [d for d in unr if d.op == "delkey" and d.index == a.index and d.key == a.key]
+        ok, facts, at = False, "", usx.loc(usx.fn)
+        if match:
+            r = match[0]
+            used.update(id(x) for x in match)
+            ok = len(match) == 1 and r.space == a.space and not r.conds
+            facts = f"{r.short()} ranging over {sorted(S.show(x, False) for x in r.space)}" \
+                    f"{' if ' + str([S.show(c, False) for c in r.conds]) if r.conds else ''} " \
+                    f"(register ranges over {sorted(S.show(x, False) for x in a.space)})"
+            if len(match) > 1:
+                facts += f"; removed at {len(match)} sites"
+            at = usx.loc(r.nid)
+        elif whole:
+            d = whole[0]
+            used.add(id(d))
+            ok = not d.conds and not d.space
+            facts = f"covered by {d.short()}"
+            at = usx.loc(d.nid)
+        else:
+            near = [r for r in unr if r.index == a.index]
+            facts = f"no inverse; effects of unregister on {a.index}: {[e.short() for e in near]}"
+        col.add(rule, f"{q}#undo:{a.short()}", ok, at,
+                f"unregister undoes `{a.short()}` of register with the same key/value origins and multiplicity", facts)
+    if not only_indices:
+        stray = [e for e in unr if id(e) not in used]
+        col.add(rule, f"{q}#no-removal-without-addition", not stray and not uunk, usx.loc(stray[0].nid) if stray else usx.loc(usx.fn),
+                "unregister has no index effect that is not the inverse of an effect of register",
+                f"stray: {[e.short() for e in stray]} unrecognised: {uunk}")
+    return usx, reg, unr
 
 
 def check(col: Collector):
@@ -133,3 +178,5 @@ def check(col: Collector):
     _edges(col)
     # the trigger closure (shared with C01.R2) decides which tasks are offered to the DFS at all
     c01._trigger_closure(col, "C02.R3")
+    # a stale scheduling edge makes tasks outside the dependent set run
+    inverse_effects(col, "C02.R5", only_indices=("rtasks", "deptasks", "tartasks"))
